@@ -119,6 +119,25 @@ func scenarios() []scenario {
 		dump.File{Name: "y.yang", Text: `module y { ` + H("y") + ` typedef t { type int32; } identity b; grouping g { leaf gy { type t; } } container cy; }`},
 		dump.File{Name: "m.yang", Text: `module m { ` + H("m") + ` import x { prefix p; } include s1; typedef tm { type p:t; } identity im { base p:b; } leaf lm { type tm; } leaf lm2 { type p:t; } container um { uses p:g; } augment /p:cx { leaf am { type p:t; } } leaf rm { type identityref { base p:b; } } }`},
 		dump.File{Name: "s1.yang", Text: `submodule s1 { belongs-to m { prefix m; } import y { prefix p; } typedef ts { type p:t; } identity is { base p:b; } leaf ls { type ts; } leaf ls2 { type p:t; } container us { uses p:g; } augment /p:cy { leaf as { type p:t; } } leaf rs { type identityref { base p:b; } } }`})
+	// more errors in one tree than any cap on error lists (130 unknown types, 130 bad ranges, in two
+	// containers and at top level)
+	add("many-errors-in-one-tree", nil, func() dump.File {
+		var sb strings.Builder
+		sb.WriteString("module me { " + H("me") + " container c1 {")
+		for i := 0; i < 130; i++ {
+			fmt.Fprintf(&sb, "\n leaf u%d { type nosuch%d; }", i, i)
+		}
+		sb.WriteString(" } container c2 {")
+		for i := 0; i < 130; i++ {
+			fmt.Fprintf(&sb, "\n leaf r%d { type int8 { range \"%d..1\"; } }", i, i+2)
+		}
+		sb.WriteString(" }")
+		for i := 0; i < 40; i++ {
+			fmt.Fprintf(&sb, "\n leaf t%d { type nosuch; }", i)
+		}
+		sb.WriteString(" }")
+		return dump.File{Name: "me.yang", Text: sb.String()}
+	}())
 	// more derived identities than any small table holds, with identities reached along two paths
 	add("identity-fan-with-joins", nil, func() dump.File { f := scale.IdentityFan(34); f.Name = "fan.yang"; return f }(),
 		dump.File{Name: "fu.yang", Text: `module fu { ` + H("fu") + ` import m { prefix m; } identity far { base m:d3; base m:j9; } identity farther { base far; base m:d20; } leaf fr { type identityref { base m:root; } } }`})
